@@ -155,6 +155,18 @@ func (s *Spec) TestSource() string {
 	for _, id := range sortedIDs(s.Leaves) {
 		fmt.Fprintf(&b, "\t\t\"SLeaf%d\": %q,\n", id, s.Leaves[id].Fn)
 	}
+	b.WriteString("\t},\n\tMethodSrc: map[string][][2]string{\n")
+	for _, id := range sortedIDs(s.Structs) {
+		if s.Structs[id].MethodSrc {
+			fmt.Fprintf(&b, "\t\t\"S%d\": {{\"S%d.Calc%d\", \"Calc%d\"}},\n", id, id, id, id)
+		}
+	}
+	b.WriteString("\t},\n\tCtor: map[string]string{\n")
+	for _, id := range sortedIDs(s.Structs) {
+		if s.Structs[id].Ctor {
+			fmt.Fprintf(&b, "\t\t\"S%d\": \"NewT%d\",\n", id, id)
+		}
+	}
 	b.WriteString("\t},\n}\n\nfunc init() {\n")
 	switch s.Format {
 	case "struct":
